@@ -4,13 +4,17 @@
 mod common;
 mod mats;
 
+mod c01;
 mod c02;
 mod c08;
 mod c09;
+mod c10;
 mod c11;
 mod c14;
 mod c15;
 mod c17;
+mod c18;
+mod dec;
 
 use common::{Run, Tier};
 use std::path::PathBuf;
@@ -63,13 +67,16 @@ fn main() {
         replay,
     };
     let code = match id.as_str() {
+        "C01" => c01::run(&run),
         "C02" => c02::run(&run),
         "C08" => c08::run(&run),
         "C09" => c09::run(&run),
+        "C10" => c10::run(&run),
         "C11" => c11::run(&run),
         "C14" => c14::run(&run),
         "C15" => c15::run(&run),
         "C17" => c17::run(&run),
+        "C18" => c18::run(&run),
         _ => common::machinery(&format!("no check for {}", id)),
     };
     std::process::exit(code);
